@@ -120,7 +120,7 @@ Proof.
       destruct (N.compare_spec (Z.to_N x) (unle d)); [apply Z.compare_eq_iff|apply Z.compare_lt_iff|apply Z.compare_gt_iff]; lia.
 Qed.
 
-(* integers as the library holds them: an i64, or a big integer with byte digits, the most significant one non-zero *)
+(* integers in minimal digits: an i64, or a big integer with byte digits, the most significant one non-zero *)
 Definition int_term (t : term) : Prop :=
   match t with
   | TInt z => (- 9223372036854775808 <= z < 9223372036854775808)%Z
